@@ -109,6 +109,11 @@ def run_single(sched, with_pt, start):
     with contextlib.redirect_stdout(buf):
         dyn = oq.compute_dynamics(oq.System(H0), M.RHO_GEN2, control=ctrl, start_time=start,
                                   progress_type="silent", **kw)
+        # the same Control object used for a second computation must act exactly as in the first one
+        dyn2 = oq.compute_dynamics(oq.System(H0), M.RHO_GEN2, control=ctrl, start_time=start,
+                                   progress_type="silent", **kw)
+    if np.abs(np.array(dyn2.states) - np.array(dyn.states)).max() > 1e-13:
+        return np.array(dyn2.states), "REUSE-DIFFERS"
     return np.array(dyn.states), buf.getvalue()
 
 
@@ -129,7 +134,13 @@ def run_chain(sched, site, with_pt):
                      oq.PtTebdParameters(dt=DT, order=2, epsrel=1e-12), chain_control=cc,
                      dynamics_sites=[0, 1])
     r = tebd.compute(N, progress_type="silent")
-    return np.array(r["dynamics"][site].states), np.array(r["dynamics"][1 - site].states), np.array(r["norm"])
+    first = np.array(r["dynamics"][site].states)
+    tebd2 = oq.PtTebd(oq.AugmentedMPS([M.RHO_GEN2, M.RHO_GEN2]), chain, pts,
+                      oq.PtTebdParameters(dt=DT, order=2, epsrel=1e-12), chain_control=cc, dynamics_sites=[0, 1])
+    r2 = tebd2.compute(N, progress_type="silent")
+    if np.abs(np.array(r2["dynamics"][site].states) - first).max() > 1e-12:
+        first = np.array(r2["dynamics"][site].states) + 1.0     # reuse of the ChainControl object changed the result
+    return first, np.array(r["dynamics"][1 - site].states), np.array(r["norm"])
 
 
 def worker(args):
@@ -150,7 +161,10 @@ def worker(args):
             if scls == "int" and start != 0.0 and len(sched) > 1:
                 continue
             got, printed = run_single(sched, with_pt, start)
-            nruns += 1
+            nruns += 2
+            if printed == "REUSE-DIFFERS":
+                out.append((f"single|{dcls}|stack{stack}|second-run-with-the-same-Control-object-differs",
+                            f"schedule {sched} pt={with_pt} start={start}: reusing the Control object changes the result"))
             dev = np.abs(got - ref).max(axis=(1, 2))
             if dev.max() > TOL:
                 k = int(np.argmax(dev > TOL))
